@@ -371,6 +371,94 @@ func runC19(c *Check) {
 		}
 		c.MinInstances("C19-R7", 4)
 	}
+	// ---- R8: writer/reader agreement on the key derivation. The loader picks the derivation by
+	// whether the stored salt is empty; a writer must therefore derive with Argon2 from a salt that
+	// is non-empty by construction and store exactly that salt.
+	c.Doc("C19-R8", "CS+VP: every function that seals a key derives the sealing key from a salt allocated with a positive constant length, and stores that same salt in the file (the loader chooses the derivation by the salt being empty or not).")
+	{
+		nW := 0
+		for _, fn := range p.Funcs {
+			pk := fnPkg(fn)
+			if pk == nil || pk.Pkg.Path() != filePkg || fn.Blocks == nil || !callsNamed(fn, func(n string) bool { return n == "(crypto/cipher.AEAD).Seal" }) {
+				continue
+			}
+			nW++
+			ctx := &Ctx{Fn: fn}
+			// the salt handed to the derivation
+			var kdfSalt *Term
+			for _, b := range fn.Blocks {
+				for _, in := range b.Instrs {
+					call, ok := in.(*ssa.Call)
+					if !ok {
+						continue
+					}
+					cal := call.Common().StaticCallee()
+					if cal == nil {
+						continue
+					}
+					if commonName(call.Common()) == "golang.org/x/crypto/argon2.IDKey" && len(call.Common().Args) > 1 {
+						kdfSalt = TermOf(call.Common().Args[1], ctx)
+					} else if p.InRepo(cal) && callsNamed(cal, func(n string) bool { return n == "golang.org/x/crypto/argon2.IDKey" }) {
+						// which parameter of the helper is the salt
+						for _, b2 := range cal.Blocks {
+							for _, in2 := range b2.Instrs {
+								if c2, ok := in2.(*ssa.Call); ok && commonName(c2.Common()) == "golang.org/x/crypto/argon2.IDKey" {
+									for i, prm := range cal.Params {
+										if c2.Common().Args[1] == ssa.Value(prm) && i < len(call.Common().Args) {
+											kdfSalt = TermOf(call.Common().Args[i], ctx)
+										}
+									}
+								}
+							}
+						}
+					}
+				}
+			}
+			// the salt stored in the file
+			var stored *Term
+			for _, b := range fn.Blocks {
+				for _, in := range b.Instrs {
+					if al, ok := in.(*ssa.Alloc); ok && strings.HasSuffix(al.Type().String(), "file.keyData") {
+						if v := structLitField(al, "Salt"); v != nil {
+							stored = TermOf(v, ctx)
+						}
+					}
+				}
+			}
+			inst := fnShort(fn) + " ⟂ sealing-salt fresh, non-empty and stored"
+			switch {
+			case kdfSalt == nil:
+				c.Bad("C19-R8", inst, fnName(fn), p.Pos(fn.Pos()), "the key is sealed without the Argon2 derivation from a salt: the loader cannot tell which derivation to use", nil)
+			case stored == nil || stored.String() != kdfSalt.String():
+				st := "nothing"
+				if stored != nil {
+					st = trunc(stored.String(), 60)
+				}
+				c.Bad("C19-R8", inst, fnName(fn), p.Pos(fn.Pos()), "the salt the key is derived from ("+trunc(kdfSalt.String(), 60)+") is not the salt stored in the file ("+st+"): the file cannot be opened with its passphrase", nil)
+			default:
+				bad := ""
+				for _, leaf := range flattenPhi(kdfSalt) {
+					okLeaf := leaf.Op == "make" && len(leaf.Args) > 0 && leaf.Args[0].unconv().Op == "const" && leaf.Args[0].unconv().Name != "0" && !strings.HasPrefix(leaf.Args[0].unconv().Name, "0:")
+					// make([]byte, K) with constant K is an array allocation sliced to K
+					if ls := leaf.String(); strings.HasPrefix(ls, "new([") && strings.Contains(ls, ":makeslice)") && !strings.HasPrefix(ls, "new([0]") {
+						okLeaf = true
+					}
+					if !okLeaf {
+						bad = trunc(leaf.String(), 60)
+					}
+				}
+				if bad == "" {
+					c.OK("C19-R8", inst, fnName(fn), p.Pos(fn.Pos()), "salt ← "+trunc(kdfSalt.String(), 60)+", used for the derivation and stored", true)
+				} else {
+					c.Bad("C19-R8", inst, fnName(fn), p.Pos(fn.Pos()), "the salt can be "+bad+", which may be empty: the key is then sealed under Argon2 of an empty salt while the loader, seeing no salt, takes the legacy derivation — no passphrase opens the file", nil)
+				}
+			}
+		}
+		if nW == 0 {
+			c.Unk("C19-R8", "sealing-functions", "", "", "anchor lost: no function seals a key")
+		}
+		c.MinInstances("C19-R8", 2)
+	}
 	c.Doc("C19-R5", "VP+EO: a buffer is zeroed outside a defer only after the last use of every value that may alias it.")
 	ruleWipeAfterLastUse(c, p, keyFns)
 	c.MinInstances("C19-R1", 1)
